@@ -233,7 +233,9 @@ def _run_chunk(binary, cases, timeout_ms, mem_mb):
         p = subprocess.Popen([binary, "--timeout-ms", str(timeout_ms)], stdin=subprocess.PIPE,
                              stdout=subprocess.PIPE, stderr=subprocess.PIPE, preexec_fn=limits)
         try:
-            out, err = p.communicate(inp.encode(), timeout=max(60, len(todo) * timeout_ms / 1000 + 30))
+            # (every case has the runner's own watchdog; this outer limit only guards against a
+            # wedged worker - capped, since poll() cannot wait longer than 2^31 ms)
+            out, err = p.communicate(inp.encode(), timeout=min(8 * 3600, max(60, len(todo) * timeout_ms / 1000 + 30)))
         except subprocess.TimeoutExpired:
             p.kill()
             out, err = p.communicate()
